@@ -76,6 +76,9 @@ fn w_sat_sub(a: usize, b: usize) -> (r: usize) ensures r == (if a >= b { a - b }
 // @trusted: Vec::extend_from_slice
 #[verifier::external_body]
 fn w_extend_from_slice(v: &mut Vec<u8>, s: &[u8]) ensures final(v)@ == old(v)@ + s@ { v.extend_from_slice(s) }
+// @trusted: R9 `&[0; N]`: N zero bytes
+#[verifier::external_body]
+fn w_zeros(n: usize) -> (r: Vec<u8>) ensures r@.len() == n, forall|k: int| 0 <= k < n ==> r@[k] == 0 { vec![0; n] }
 // @trusted: CommonOpcode::is_jump_op (opcode.rs): a fixed classification of opcode bytes (checked against CPython in C16); here it is an uninterpreted function of the byte
 #[verifier::external_body]
 fn w_is_jump_op(op: u8) -> (r: bool) ensures r == is_jump(op) { unimplemented!() }
